@@ -43,10 +43,12 @@ def peer_pdus(sc):
     return out
 
 
-def run_one(sc, req, j, name, mutated, orig_rec, orig, ending='FIN', local_max=65536, lazy_user=False):
+def run_one(sc, req, j, name, mutated, orig_rec, orig, ending='FIN', local_max=65536, lazy_user=False, echo=False):
     def fn(rec, b):
         return mutate.reframe(orig_rec, orig, mutated)
     ops = ops_upto_pdu(sc, j)
+    if echo:
+        ops = ops + [('UECHO',)]      # the local user answers the (mutated) request it was indicated, echoing its titles
     if ending == 'DEAF':
         # the peer is gone for writing by the time its last bytes are handled: the provider's answer cannot be written
         ops = ops[:-1] + [('DEAF',), ops[-1], ('FIN',)]
@@ -85,6 +87,11 @@ def main(tier='quick'):
                         p = run_one(sc, req, j, mname, mb, rec, b, ending)
                         runs.append(p.run)
                         recipes.append({'req': req, 'conv': name, 'pdu': j, 'mutator': mname, 'bytes': mb.hex(), 'ending': ending})
+                        if not req and name == 'echo' and j == 0 and any(type(i).__name__ == 'AAssociateRqPDU' for i in p.run.indications):
+                            # the mutated request was indicated: the user accepts it the way the acceptor does
+                            p = run_one(sc, req, j, mname, mb, rec, b, 'FIN', echo=True)
+                            runs.append(p.run)
+                            recipes.append({'req': req, 'conv': name, 'pdu': j, 'mutator': mname, 'bytes': mb.hex(), 'ending': 'FIN', 'echo': True})
     # (a) an unrecognised PDU whose size is exactly one or two read buffers of a provider with a small own maximum, in
     #     every state the corpus reaches; (b) the local user does not take its indications while the peer pipelines
     n_extra = 0
@@ -138,7 +145,7 @@ def replay(doc):
     sc = corp[rec['conv']]
     orig_rec, orig = peer_pdus(sc)[rec['pdu']]
     p = run_one(sc, rec['req'], rec['pdu'], rec['mutator'], bytes.fromhex(rec['bytes']), orig_rec, orig, rec.get('ending', 'FIN'),
-                local_max=rec.get('local_max', 65536), lazy_user=rec.get('lazy_user', False))
+                local_max=rec.get('local_max', 65536), lazy_user=rec.get('lazy_user', False), echo=rec.get('echo', False))
     v = Verdict('C12', 'quick')
     ulcheck.validate(v, [p.run], [rec])
     for x in v.violations:
